@@ -187,7 +187,7 @@ def plan(tier, seed):
     depth = 2 if tier == "quick" else 3
     nsh = 8 if tier == "quick" else 16
     specs = [{"kind": "positions", "depth": depth, "part": i, "parts": nsh} for i in range(nsh)]
-    specs += [{"kind": "random", "n": 120 if tier == "quick" else 1200} for _ in range(6 if tier == "quick" else 12)]
+    specs += [{"kind": "random", "n": 120 if tier == "quick" else 2500} for _ in range(6 if tier == "quick" else 16)]
     specs.append({"kind": "hostile"})
     return specs
 
